@@ -1,12 +1,13 @@
 """C02 — Each needed task runs exactly once per invocation; nothing else runs."""
 from . import executor as E, graphs as G, planner as P
+from . import selection as SEL
 
 META = {
     "explanation": "W1 worklist once-only discipline at the planner (a task is expanded by exactly one lowering entry), "
                    "PL6 (one op and one progress count per lowered task, main_task reported), PL7 (cached xor lowered, "
                    "guard equals `not run_again and not should_run`), PL8 (tasks only from the closure), EX3/EX6/EX7 "
-                   "(an op is dequeued at one site and ends in exactly one state).",
-    "rules": ["W1(planner)", "PL6", "PL7", "PL8", "DUP1", "EX1", "EX3", "EX6", "EX7"],
+                   "(an op is dequeued at one site and ends in exactly one state). The --at-least decision of should_run (ATL1): a task satisfied by a reusable result is not executed.",
+    "rules": ["W1(planner)", "PL6", "PL7", "PL8", "DUP1", "EX1", "EX3", "EX6", "EX7", "ATL1"],
     "assumptions": ["the caching decision itself (which version is reusable) is C05's subject"],
     "trusted": ["ast parser", "own call resolver"],
 }
@@ -23,6 +24,8 @@ def run(A, rep, tier):
     E.rule_ex3(A, rep, X)
     E.rule_ex6(A, rep, X, stop_rules=False)
     E.rule_ex7(A, rep, X)
+    # "nothing else runs": an experiment satisfied by a reusable result is not executed — the --at-least decision
+    SEL.rule_atl1(A, rep)
     # progress numerator: incremented once per dequeued op with a main task
     import ast
     from ..model import norm, walk_local
